@@ -34,6 +34,7 @@ static int ystate[MAXR], progress[MAXR], failed_polls[MAXR];
 static Coll coll[MAXC];
 static const void* gathered[MAXC][MAXR];
 static long sent_total = 0, delivered_total = 0;
+static int last_coll[MAXR], last_phase[MAXR];
 
 inline int wrank() { long t = __v_cur_thread(); for (int r = 0; r < P; ++r) if (tid_of[r] == t) return r; return 0; }
 inline int crank(int c, int world) { for (int i = 0; i < comms[c].n; ++i) if (comms[c].member[i] == world) return i; return -1; }
@@ -64,11 +65,12 @@ inline void coll_enter(int c, int kind, int root, const void* mine) {
     Coll& k = coll[c];
     if (k.narrived == 0) { k.kind = kind; k.root = root; }
     else verif::check(k.kind == kind && k.root == root, "all ranks of a communicator call the same collective with the same root");
-    k.ptr[cr] = mine; k.arrived[cr] = 1; ++k.narrived;
+    k.ptr[cr] = mine; k.arrived[cr] = 1; ++k.narrived; last_coll[r] = c * 10 + kind; last_phase[r] = 1;
     while (k.phase == 0) yield_to_scheduler(IN_COLL);
 }
 inline void coll_leave(int c) {
     Coll& k = coll[c];
+    last_phase[wrank()] = 2;
     if (++k.left == comms[c].n) {
         k.narrived = 0; k.phase = 0; k.left = 0;
         for (int i = 0; i < MAXR; ++i) k.arrived[i] = 0;
@@ -88,23 +90,22 @@ int  __vmpi_split(int c, int color) {
     int me = vm::crank(c, vm::wrank());
     colors[c][me] = color;
     vm::coll_enter(c, 3, -1, 0);
-    // first rank of a colour (lowest comm rank) allocates the communicator id, the others reuse it: ids are assigned in
-    // order of the lowest member, deterministically, by every rank computing the same table
-    int id = -1;
-    int next = vm::ncomms;
-    for (int i = 0; i < vm::comms[c].n; ++i) {
-        bool first = true;
-        for (int j = 0; j < i; ++j) if (colors[c][j] == colors[c][i]) first = false;
-        if (first) { newid[c][i] = next++; } else { for (int j = 0; j < i; ++j) if (colors[c][j] == colors[c][i]) { newid[c][i] = newid[c][j]; break; } }
+    // the first rank that runs after the release computes the table of new communicators once; the others read it
+    static int table_ready[vm::MAXC];
+    if (!table_ready[c]) {
+        int next = vm::ncomms;
+        for (int i = 0; i < vm::comms[c].n; ++i) {
+            int same = -1;
+            for (int j = 0; j < i; ++j) if (colors[c][j] == colors[c][i]) { same = j; break; }
+            if (same < 0) { newid[c][i] = next; vm::comms[next].n = 0; ++next; } else newid[c][i] = newid[c][same];
+            vm::Comm& nc = vm::comms[newid[c][i]];
+            nc.member[nc.n++] = vm::comms[c].member[i];
+        }
+        vm::ncomms = next;
+        table_ready[c] = vm::comms[c].n;      // counts the readers still to come
     }
-    id = newid[c][me];
-    if (me == 0) {      // one rank materialises all new communicators
-        for (int i = 0; i < vm::comms[c].n; ++i) { int nid = newid[c][i]; if (nid >= vm::ncomms) { vm::comms[nid].n = 0; } }
-        int maxid = vm::ncomms;
-        for (int i = 0; i < vm::comms[c].n; ++i) if (newid[c][i] + 1 > maxid) maxid = newid[c][i] + 1;
-        for (int nid = vm::ncomms; nid < maxid; ++nid) { vm::comms[nid].n = 0; for (int i = 0; i < vm::comms[c].n; ++i) if (newid[c][i] == nid) vm::comms[nid].member[vm::comms[nid].n++] = vm::comms[c].member[i]; }
-        vm::ncomms = maxid;
-    }
+    int id = newid[c][me];
+    if (--table_ready[c] < 0) table_ready[c] = 0;
     vm::coll_leave(c);
     return id;
 }
@@ -176,8 +177,18 @@ inline int run_all(void (*rank_main)(long), int step_cap) {
         // 3. everybody is blocked: deliver one message (nondeterministic choice of the channel)
         int chan[MAXR * MAXR], nchan = 0;
         for (int s = 0; s < P; ++s) for (int d = 0; d < P; ++d) { int i = inflight_on(s, d); if (i >= 0) chan[nchan++] = i; }
-        if (nchan == 0) return 0;                       // deadlock: nobody can move, nothing in flight
+        if (nchan == 0) {                               // deadlock: nobody can move, nothing in flight
+            for (int r = 0; r < P; ++r) { verif::record_int("deadlock: state of rank (1 quiescent, 2 in collective, 3 done)", ystate[r]); verif::record_int("deadlock: last collective of the rank (10*comm + kind)", last_coll[r]); verif::record_int("deadlock: 1 = waiting to enter, 2 = waiting to leave", last_phase[r]); }
+            for (int c = 0; c < ncomms; ++c) { verif::record_int("deadlock: communicator size", comms[c].n); verif::record_int("deadlock: ranks waiting in its collective", coll[c].narrived); verif::record_int("deadlock: collective kind (0 bcast 1 reduce 2 barrier 3 split)", coll[c].kind); }
+            return 0;
+        }
+#ifdef VM_FREE_CHOICES
+        // only the first VM_FREE_CHOICES delivery decisions are nondeterministic (units whose subject is not the dispatcher)
+        static int choices_made = 0;
+        long pick = (nchan == 1 || choices_made >= VM_FREE_CHOICES) ? 0 : (++choices_made, verif::concretize(verif::sym_int("deliver", 0, nchan - 1)));
+#else
         long pick = nchan == 1 ? 0 : verif::concretize(verif::sym_int("deliver", 0, nchan - 1));
+#endif
         deliver(chan[pick]);
     }
     return -1;   // step cap
